@@ -322,4 +322,161 @@ theorem sorted_foldl_insert (cmp : α → α → Ordering) [TransCmp cmp] [Lawfu
   | nil => simpa
   | cons r rest ih => exact ih _ (Node.sorted_insert cmp n r.1 r.2 h)
 
+
+/-! ### Segments vs. text: `::` boundaries -/
+
+def ColonFree (s : List Char) : Prop := ∀ c ∈ s, c ≠ ':'
+
+theorem splitColons_cons_ne (c : Char) (rest cur : List Char) (hc : c ≠ ':') :
+    splitColons (c :: rest) cur = splitColons rest (c :: cur) := by
+  rw [splitColons.eq_def]
+  split
+  · simp at *
+  · rename_i heq; simp at heq; exact absurd heq.1 hc
+  · rename_i heq; simp at heq; obtain ⟨rfl, rfl⟩ := heq; rfl
+
+theorem splitColons_sep (rest cur : List Char) :
+    splitColons (':' :: ':' :: rest) cur = cur.reverse :: splitColons rest [] := by
+  rw [splitColons]
+
+/-- splitting `seg ++ tail` where `seg` has no colon just accumulates `seg` -/
+theorem splitColons_append (seg tail cur : List Char) (h : ColonFree seg) :
+    splitColons (seg ++ tail) cur = splitColons tail (seg.reverse ++ cur) := by
+  induction seg generalizing cur with
+  | nil => simp
+  | cons c rest ih =>
+    have hc : c ≠ ':' := h c (by simp)
+    have hr : ColonFree rest := fun d hd => h d (by simp [hd])
+    simp only [List.cons_append]
+    rw [splitColons_cons_ne _ _ _ hc, ih _ hr]; simp
+
+/-- **`segments` inverts joining**: splitting the `::`-join of colon-free segments returns them. -/
+theorem splitColons_join (segs : List (List Char)) (hne : segs ≠ []) (h : ∀ s ∈ segs, ColonFree s) :
+    splitColons (joinSegs segs) [] = segs := by
+  induction segs with
+  | nil => exact absurd rfl hne
+  | cons s rest ih =>
+    cases rest with
+    | nil =>
+      have := splitColons_append s [] [] (h s (by simp))
+      simpa [joinSegs, splitColons] using this
+    | cons t rest =>
+      simp only [joinSegs]
+      rw [splitColons_append s _ [] (h s (by simp)), splitColons_sep]
+      rw [ih (by simp) (fun x hx => h x (by simp [hx]))]
+      simp
+
+/-- `parent` followed by nothing or by something starting with `::` -/
+def IsChild (child parent : List Char) : Prop :=
+  ∃ r, child = parent ++ r ∧ (r = [] ∨ ∃ r', r = ':' :: ':' :: r')
+
+theorem isChildOf_iff (child parent : List Char) : isChildOf child parent = true ↔ IsChild child parent := by
+  unfold isChildOf IsChild
+  simp only [Bool.and_eq_true, Bool.or_eq_true, List.isEmpty_iff, beq_iff_eq]
+  constructor
+  · rintro ⟨hp, hr⟩
+    obtain ⟨r, rfl⟩ := List.isPrefixOf_iff_prefix.mp hp
+    refine ⟨r, rfl, ?_⟩
+    simp only [List.drop_left] at hr
+    rcases hr with h | h
+    · exact Or.inl h
+    · right
+      match r, h with
+      | a :: b :: r', h => simp at h; exact ⟨r', by rw [h.1, h.2]⟩
+      | [a], h => simp at h
+      | [], h => simp at h
+  · rintro ⟨r, rfl, hr⟩
+    refine ⟨List.isPrefixOf_iff_prefix.mpr ⟨r, rfl⟩, ?_⟩
+    simp only [List.drop_left]
+    rcases hr with rfl | ⟨r', rfl⟩
+    · exact Or.inl rfl
+    · right; simp
+
+/-- `x` is empty or starts with a colon -/
+def ColonStart (x : List Char) : Prop := x = [] ∨ ∃ t, x = ':' :: t
+
+theorem colonFree_split_unique : ∀ (a b x y : List Char), ColonFree a → ColonFree b → ColonStart x → ColonStart y →
+    a ++ x = b ++ y → a = b ∧ x = y
+  | [], [], x, y, _, _, _, _, h => ⟨rfl, by simpa using h⟩
+  | [], c :: b, x, y, _, hb, hx, _, h => by
+    have hc : c ≠ ':' := hb c (by simp)
+    rcases hx with rfl | ⟨t, rfl⟩
+    · simp at h
+    · simp at h; exact absurd h.1.symm hc
+  | c :: a, [], x, y, ha, _, _, hy, h => by
+    have hc : c ≠ ':' := ha c (by simp)
+    rcases hy with rfl | ⟨t, rfl⟩
+    · simp at h
+    · simp at h; exact absurd h.1 hc
+  | c :: a, d :: b, x, y, ha, hb, hx, hy, h => by
+    simp only [List.cons_append, List.cons.injEq] at h
+    obtain ⟨rfl, h⟩ := h
+    obtain ⟨rfl, rfl⟩ := colonFree_split_unique a b x y (fun e he => ha e (by simp [he])) (fun e he => hb e (by simp [he])) hx hy h
+    exact ⟨rfl, rfl⟩
+
+/-- the part of a join after the first segment -/
+def tailJoin : List (List Char) → List Char
+  | [] => []
+  | t :: rest => ':' :: ':' :: joinSegs (t :: rest)
+
+theorem joinSegs_cons (s : List Char) (rest : List (List Char)) : joinSegs (s :: rest) = s ++ tailJoin rest := by
+  cases rest <;> simp [joinSegs, tailJoin]
+
+theorem tailJoin_colonStart (l : List (List Char)) : ColonStart (tailJoin l) := by
+  cases l with
+  | nil => exact Or.inl rfl
+  | cons t r => exact Or.inr ⟨_, rfl⟩
+
+theorem joinSegs_append (ps ext : List (List Char)) (hp : ps ≠ []) :
+    joinSegs (ps ++ ext) = joinSegs ps ++ tailJoin ext := by
+  induction ps with
+  | nil => exact absurd rfl hp
+  | cons p ps ih =>
+    cases ps with
+    | nil => simp [joinSegs_cons, joinSegs]
+    | cons q ps =>
+      rw [List.cons_append, joinSegs_cons, joinSegs_cons p]
+      have := ih (by simp)
+      simp only [tailJoin, List.cons_append] at this ⊢
+      rw [this]; simp
+
+/-- **Segment prefixes are exactly ancestors at `::` boundaries.** For paths made of colon-free segments,
+    the registered path `ps` is a segment-wise prefix of the module `ms` iff the module's text is the path's text
+    followed by nothing or by `::…` — i.e. `Path::is_child_of`. (`aa::b` is not a child of `a`.) -/
+theorem prefix_iff_child : ∀ (ps ms : List (List Char)), ps ≠ [] → ms ≠ [] →
+    (∀ s ∈ ps, ColonFree s) → (∀ s ∈ ms, ColonFree s) →
+    (IsChild (joinSegs ms) (joinSegs ps) ↔ ps <+: ms)
+  | [], _, h, _, _, _ => absurd rfl h
+  | _, [], _, h, _, _ => absurd rfl h
+  | p :: ps, m :: ms, _, _, hps, hms => by
+    constructor
+    · rintro ⟨r, hr, hrs⟩
+      rw [joinSegs_cons, joinSegs_cons, List.append_assoc] at hr
+      have hx : ColonStart (tailJoin ps ++ r) := by
+        cases ps with
+        | nil =>
+          rcases hrs with rfl | ⟨r', rfl⟩
+          · exact Or.inl rfl
+          · exact Or.inr ⟨_, rfl⟩
+        | cons q ps => exact Or.inr ⟨_, rfl⟩
+      obtain ⟨rfl, h2⟩ := colonFree_split_unique m p _ _ (hms m (by simp)) (hps p (by simp))
+        (tailJoin_colonStart ms) hx hr
+      cases ps with
+      | nil => exact ⟨ms, rfl⟩
+      | cons q ps =>
+        cases ms with
+        | nil => simp [tailJoin] at h2
+        | cons n ms =>
+          simp only [tailJoin, List.cons_append, List.cons.injEq, true_and] at h2
+          have ih := (prefix_iff_child (q :: ps) (n :: ms) (by simp) (by simp)
+            (fun s hs => hps s (by simp [hs])) (fun s hs => hms s (by simp [hs]))).mp ⟨r, h2, hrs⟩
+          obtain ⟨ext, hext⟩ := ih
+          exact ⟨ext, by rw [List.cons_append, hext]⟩
+    · rintro ⟨ext, hext⟩
+      rw [← hext, joinSegs_append _ _ (by simp)]
+      refine ⟨tailJoin ext, rfl, ?_⟩
+      cases ext with
+      | nil => exact Or.inl rfl
+      | cons t r => exact Or.inr ⟨_, rfl⟩
+
 end EmitModel.Level
